@@ -352,7 +352,8 @@ type SeqCase struct {
 	Ops     []SeqOp `json:"ops"`
 }
 
-var names = []string{"a", "b", "c", "a", "b", ""}
+// (near misses of a name - surrounding white space, the other case - are names of their own)
+var names = []string{"a", "b", "c", "a", "b", "", "a ", " a", "A", "b\n", "a", "b"}
 
 func genSeq(t *rapid.T) SeqCase {
 	c := SeqCase{Clients: rapid.IntRange(1, 2).Draw(t, "clients")}
